@@ -841,6 +841,17 @@ def _c10(pid, tier, log):
         timing.append(Probe("c10-eq-" + s + "-timing", eq_src.replace("c10-eq-" + s + ":", "c10-eq-" + s + "-timing:"), "pos",
                             {"E0369", "E0277"}, "%s == %s is accepted with --features %s" % (t, t, TIMING_FEATURE),
                             meta={"family": "eq-timing"}))
+        # no `==` against plain text, in either direction, with or without the feature
+        for tag, rhs, expr in (("refstr", "&str", "a == s"), ("str", "&str", "a == *s"), ("string", "String", "a == s"),
+                               ("str-rev", "&str", "*s == a"), ("refstr-rev", "&str", "s == a"), ("string-rev", "String", "s == a")):
+            nm = "c10-eq-%s-%s" % (tag, s)
+            default.append(Probe(nm, fill(template("c10_eq_other.rs"), NAME=nm, T=t, RHS=rhs, EXPR=expr), "neg",
+                                 {"E0369", "E0277", "E0308"}, "`%s` with a: %s, s: %s must be rejected (no comparison of a secret with plain text)" % (expr, t, rhs),
+                                 twins=["c10-debug-" + s], meta={"family": "eq-text"}))
+            if tier == "thorough":
+                timing.append(Probe(nm + "-timing", fill(template("c10_eq_other.rs"), NAME=nm + "-timing", T=t, RHS=rhs, EXPR=expr), "neg",
+                                    {"E0369", "E0277", "E0308"}, "`%s` with a: %s, s: %s must be rejected also with %s" % (expr, t, rhs, TIMING_FEATURE),
+                                    twins=["c10-eq-" + s + "-timing"], meta={"family": "eq-text-timing"}))
         if tier == "thorough":
             # Display stays unavailable under the feature as well
             timing.append(Probe("c10-display-" + s + "-timing",
@@ -1003,6 +1014,31 @@ def _c11(pid, tier, log):
         probes.append(make("maybe", {g: "maybe"}, "pos",
                            "%s() with only the %s endpoint CONDITIONALLY set is accepted%s" % (
                                m, slug, "" if getter else " and yields Result<_, ConfigurationError>"), shape=shape))
+    # FRAME probes (positive, generic): for EVERY state of the four other endpoints at once - the state parameters are
+    # type variables - a setter returns a client whose other typestate parameters are the ones it was given, in the same
+    # positions, and whose own parameter is the state the setter stands for.  rustc's type checker decides this for all
+    # 3^4 combinations by parametricity; a setter whose return type permutes or fixes another parameter is rejected with
+    # E0308 on the marked line.
+    sgen = inv["struct_generics"]
+    frame_rows = []
+    STATE_TY = {"set": "oauth2::EndpointSet", "maybe": "oauth2::EndpointMaybeSet"}
+    missing_g = [x for x in sgen if not x.startswith("Has") and x not in inv["impl_gmap"]]
+    if missing_g:
+        tooling.append("C11 frame probes: no concrete type known for the Client parameters %s" % missing_g)
+    else:
+        def client_ty(subst):
+            return "oauth2::Client<%s>" % ", ".join(subst.get(x, inv["impl_gmap"].get(x, x)) for x in sgen)
+        for g in endpoints:
+            for st, (name, uty, opt) in sorted(inv["setters"].get(g, {}).items()):
+                pname = "c11-frame-%s" % name
+                what = ("%s() changes only the %s typestate parameter (to %s) and keeps the other four, whatever their states"
+                        % (name, endpoint_slug(g), STATE_TY[st].split("::")[-1]))
+                src = fill(template("c11_frame.rs"), NAME=pname, WHAT=what,
+                           GENERICS=", ".join("%s: EndpointState" % e for e in endpoints),
+                           IN_TYPE=client_ty({}), OUT_TYPE=client_ty({g: STATE_TY[st]}),
+                           UTY=("Option<%s>" % xlate(uty, {})) if opt else xlate(uty, {}), METHOD=name, ARG="u")
+                probes.append(Probe(pname, src, "pos", {"E0308"}, what, meta={"family": "frame"}))
+                frame_rows.append(pname)
     allp, t2, timings, cmds = run_groups(pid, [("c11", "", "", probes)], log)
     tooling += t2
     n = len(discovered)
@@ -1020,6 +1056,7 @@ def _c11(pid, tier, log):
         "methods_only_in_one_gated_state": sorted(m for m, e in inv["gated"].items() if ("set" in e) != ("maybe" in e)),
         "setters": {g: {st: v[0] for st, v in d.items()} for g, d in inv["setters"].items()},
         "states_per_method": 3,
+        "frame_probes": frame_rows,
     }
     return assemble(pid, allp, tooling, timings, cmds, extra)
 
